@@ -46,6 +46,9 @@ def check_step(obs, i, stats=None):
     rec = obs[i]
     ev, pre, post, agg = rec["ev"], rec["pre"], rec["post"], rec["agg"]
     out = []
+    if rec.get("raised"):
+        out.append((f"C28:aggregator-raised:{ev}:{rec['raised'].split(':')[0]}",
+                    f"handling {ev} (step {i}) raised {rec['raised']}"))
     if rec["desync"]:
         out.append((f"C28:connection-state:{ev}", f"after {ev} (step {i}) aggregator registered/connected = {agg['registered']}/{agg['connected']}, "
                     f"engine expects {post['registered']}/{post['connected']}"))
